@@ -103,10 +103,10 @@ _BASE = {}
 _USED = set()
 
 
-def tx_for(nin, mutable):
-    k = (nin, mutable)
+def tx_for(nin, mutable, nout=2):
+    k = (nin, mutable, nout)
     if k not in _TXS:
-        m = C.default_tx(nin, 2)
+        m = C.default_tx(nin, nout)
         _TXS[k] = C.lib_tx(m, mutable=mutable)
         _BASE[k] = c03.snapshot(_TXS[k])
     _USED.add(k)
@@ -124,14 +124,17 @@ def check_unchanged(what):
     _USED.clear()
 
 
-def contained(sig, pk, fs, nin=2, mutable=False, idx=0, what=''):
+def contained(sig, pk, fs, nin=2, mutable=False, idx=0, what='', nout=2):
     from bitcoin.core import ValidationError
     from bitcoin.core.script import CScript
     from bitcoin.core.scripteval import VerifyScript, EvalScriptError, MaxOpCountError
-    tx = tx_for(nin, mutable)
+    tx = tx_for(nin, mutable, nout)
     out = 'accept'
     try:
-        r = VerifyScript(CScript(sig), CScript(pk), tx, idx, flags=L.lib_flags(fs))
+        if fs is None:
+            r = VerifyScript(CScript(sig), CScript(pk), tx, idx)          # flags argument omitted: the default flag set
+        else:
+            r = VerifyScript(CScript(sig), CScript(pk), tx, idx, flags=L.lib_flags(fs))
     except Viol:
         raise
     except ValidationError as e:
@@ -152,9 +155,25 @@ def contained(sig, pk, fs, nin=2, mutable=False, idx=0, what=''):
                 if e.vfExec is not None and len(e.vfExec) > e.nOpCount:
                     raise Viol('%s captured vfExec deeper than the operation count' % what, e.nOpCount, len(e.vfExec))
     except BaseException as e:  # noqa
-        raise Viol('%s VerifyScript(scriptSig %s, scriptPubKey %s, flags %s, idx %d) let %s escape' % (what, sig.hex()[:60], pk.hex()[:60], sorted(fs), idx, type(e).__name__),
+        raise Viol('%s VerifyScript(scriptSig %s, scriptPubKey %s, flags %s, idx %d) let %s escape' % (what, sig.hex()[:60], pk.hex()[:60], 'omitted' if fs is None else sorted(fs), idx, type(e).__name__),
                    'returns or raises a bitcoin.core.ValidationError', '%s: %s' % (type(e).__name__, str(e)[:100]))
     return out
+
+
+def eval_contained(script, init):
+    """EvalScript called directly, flags omitted, from a given initial stack: returns or raises a ValidationError"""
+    from bitcoin.core import ValidationError
+    from bitcoin.core.script import CScript
+    from bitcoin.core.scripteval import EvalScript
+    tx = tx_for(2, False)
+    st = list(init)
+    try:
+        EvalScript(st, CScript(script), tx, 0)
+        return 1
+    except ValidationError:
+        return 0
+    except BaseException as e:  # noqa
+        raise Viol('EvalScript(%s) with the flags argument omitted let %s escape' % (script.hex()[:60], type(e).__name__), 'returns or raises a bitcoin.core.ValidationError', '%s: %s' % (type(e).__name__, str(e)[:100]))
 
 
 class ShortStrings(Family):
@@ -203,6 +222,9 @@ class ShortStrings(Family):
             for fs in (FLAGSETS[0], FLAGSETS[2]):
                 acc += contained(s, other, fs, what='[scriptSig]') == 'accept'
                 n += 1
+        acc += contained(SCRIPTSIGS[4], s, None, what='[scriptPubKey, flags omitted]') == 'accept'
+        acc += eval_contained(s, (b'\x01', b''))
+        n += 2
         # wrapped in P2SH: scriptSig pushes the string as redeem script
         pk = b'\xa9\x14' + RI.hash160(s) + b'\x87'
         for pre in (b'', b'\x51', RS.push_encode(SIGSHAPED)):
@@ -421,23 +443,24 @@ class TxShapes(Family):
 
     def cases(self, shard, tier):
         for nin in (1, 2, 3):
-            for mut in (False, True):
-                for idx in range(0, nin + 2):
-                    for ht in (0x01, 0x02, 0x03, 0x81, 0x83, 0x00, 0xff):
-                        for tmpl in ('cs', 'ms', 'p2sh'):
-                            yield (nin, mut, idx, ht, tmpl)
+            for nout in (0, 1, 2, 3):
+                for mut in (False, True):
+                    for idx in range(0, nin + 2):
+                        for ht in (0x01, 0x02, 0x03, 0x81, 0x82, 0x83, 0x00, 0xff, 0x22, 0x23, 0x42, 0x43, 0x63, 0xa3, 0xc3, 0xe3, 0x1f, 0x9f):
+                            for tmpl in ('cs', 'ms', 'p2sh'):
+                                yield (nin, mut, idx, ht, tmpl, nout)
 
     def check(self, case):
-        nin, mut, idx, ht, tmpl = case
+        nin, mut, idx, ht, tmpl, nout = case
         sig, pub, pubu = _valid_sig_and_keys()
         sg = sig[:-1] + bytes([ht])
         if tmpl == 'cs':
-            r = contained(RS.push_encode(sg), RS.push_encode(pub) + b'\xac', FLAGSETS[0], nin=nin, mutable=mut, idx=idx, what='[index]')
+            r = contained(RS.push_encode(sg), RS.push_encode(pub) + b'\xac', FLAGSETS[0], nin=nin, mutable=mut, idx=idx, what='[index]', nout=nout)
         elif tmpl == 'ms':
-            r = contained(b'\x00' + RS.push_encode(sg), b'\x51' + RS.push_encode(pub) + RS.push_encode(pubu) + b'\x52\xae', FLAGSETS[3], nin=nin, mutable=mut, idx=idx, what='[index]')
+            r = contained(b'\x00' + RS.push_encode(sg), b'\x51' + RS.push_encode(pub) + RS.push_encode(pubu) + b'\x52\xae', FLAGSETS[3], nin=nin, mutable=mut, idx=idx, what='[index]', nout=nout)
         else:
             redeem = RS.push_encode(pub) + b'\xac'
-            r = contained(RS.push_encode(sg) + RS.push_encode(redeem), b'\xa9\x14' + RI.hash160(redeem) + b'\x87', FLAGSETS[2], nin=nin, mutable=mut, idx=idx, what='[index]')
+            r = contained(RS.push_encode(sg) + RS.push_encode(redeem), b'\xa9\x14' + RI.hash160(redeem) + b'\x87', FLAGSETS[2], nin=nin, mutable=mut, idx=idx, what='[index]', nout=nout)
         check_unchanged('template %s idx %d hashtype %#x' % (tmpl, idx, ht))
         return r, True
 
